@@ -143,7 +143,7 @@ func (s *ECDHSession) Parameter(rand io.Reader, _ *rsa.PublicKey) ([]byte, error
 
 	// Generate random bytes for a length that is curve-dependent
 	r := make([]byte, s.randSize)
-	if _, err := rand.Read(r); err != nil {
+	if _, err := io.ReadFull(rand, r); err != nil {
 		return nil, err
 	}
 
